@@ -27,8 +27,9 @@ class LoopSpec(object):
     decreases:    clause function returning an int measure (must decrease, stay >= 0).
     """
     def __init__(self, havoc=None, invariant=None, element=None, step=(), decreases=None, after=None,
-                 unroll=None, props=()):
+                 unroll=None, props=(), entry=()):
         self.havoc, self.invariant, self.element = havoc, invariant, element
+        self.entry = list(entry)          # clauses that must hold when the loop is first reached (may use `yielded`)
         self.step, self.decreases, self.after, self.unroll = list(step), decreases, after, unroll
         self.props = tuple(props)
 
